@@ -290,6 +290,7 @@ func verifIdenticalPair(shape int, pkg *types.Package, base *types.Named) (a, b 
 }
 
 func VerifH_C19_hash() {
+	vp.SymbolicAddrs(true) // the addresses of type-name objects are arbitrary
 	pkg := verifPkgT()
 	base := verifNamed(pkg, "N", types.Typ[types.Int])
 	shape := vp.Choose("shape", 11)
